@@ -165,7 +165,7 @@ impl Prop for C04 {
         (prop_oneof![30 => small, 1 => large], any::<u32>()).prop_map(|(g, sources)| SpCase { g, sources }).boxed()
     }
     fn random_cases(&self, tier: Tier) -> u32 {
-        tier.pick(12_000, 400_000)
+        tier.pick(100_000, 1_000_000)
     }
     fn check(&self, case: &SpCase) -> Outcome {
         let mut out = Outcome::new();
